@@ -17,7 +17,7 @@ func init() { register("C05", "other", checkC05) }
 
 func checkC05(w *World, r *Result) {
 	r.Explanation = "Decides the structural clauses the property names: AGR-C05a in newColumnsCode the per-column lists fall into two groups (all columns / without the primary key) and within a group every list grows once per iteration in the same block (equal lengths, aligned positions); guards are skipped first; AGR-C05b every placeholder appended to a list X is `$len(X)+1` (numbered 1..n without gap); AGR-C05e the index compared with Table.Primary() is the range index over ta.Columns itself (the slice Primary() indexes); columnsCount is the length of the full group; TPL-C05c in every statement of the CRUD templates the column list, the placeholder list and the Go argument list come from the same group, SELECT/RETURNING lists are the full group (what the scan destinations expect), the UPDATE id placeholder is columnsCount and its argument follows the values, and statements with literal placeholders carry exactly $1..$n and n arguments; helper comparisons number i+1 over the same columns their argument names come from; AGR-C05d every table position is filled by SQLTableName and every column position by the Go field name (lower-cased in CRUD), never by the JSON name; AGR-C08f/AGR-C08t foreign-key detection shared with the DDL (rules shared with C08); TPL-1 the templates parse as Go. Does not decide: that statements execute without SQL error or the map-model behaviour over histories (needs a database)."
-	r.Rules = []string{"AGR-C05a", "AGR-C05b", "AGR-C05e", "TPL-C05c", "AGR-C05d", "AGR-C08f", "AGR-C08t", "AGR-C05k", "TPL-1", "ALIAS-APPEND", "PRINTF"}
+	r.Rules = []string{"AGR-C05a", "AGR-C05b", "AGR-C05e", "TPL-C05c", "AGR-C05d", "AGR-C08f", "AGR-C08t", "AGR-C05k", "TPL-C05p", "TPL-1", "ALIAS-APPEND", "PRINTF"}
 	printfRule(w, r, "generator/go/sqlcrud")
 	aliasAppendRule(w, r, func(rel string) bool { return rel == "analysis/sql" || rel == "generator/go/sqlcrud" || rel == "generator" })
 	checkColumnsCode(w, r)
@@ -36,6 +36,9 @@ func checkC05(w *World, r *Result) {
 		r.add(o)
 	}
 	checkCompositeLockstep(w, r)
+	if checkAndJoinedFragments(w, r, "generator/go/sqlcrud") < 2 {
+		Undecided("TPL-C05p: fewer AND-joined fragments than confirmed by hand")
+	}
 	runTPLGo(w, r, "generator/go/sqlcrud", 2)
 }
 
@@ -615,4 +618,73 @@ func checkCompositeLockstep(w *World, r *Result) {
 			r.bad("AGR-C05k", l.fl.fn.Name, cons, w.Pos(l.fl.rs.Pos()), "field filter {"+strings.Join(l.guards, ", ")+"} differs from {"+strings.Join(ref.guards, ", ")+"} in "+ref.fl.fn.Name+": the composite type's DDL and the generated Scan/Value disagree on the number and position of the fields")
 		}
 	}
+}
+
+// checkAndJoinedFragments (TPL-C05p): the comparisons of a WHERE clause are collected in a list and joined with
+// " AND ". AND binds tighter than OR, so an element that contains an OR outside parentheses (the null-safe
+// comparison `(c IS NULL AND $n IS NULL) OR c = $n`) regroups the whole clause once joined: the statement stays
+// valid SQL but selects or deletes other rows. Obligations: every constant format appended to a list that is
+// joined with a separator containing AND.
+func checkAndJoinedFragments(w *World, r *Result, rel string) int {
+	n := 0
+	for _, fi := range sortedFuncs(w) {
+		if w.Rel(fi.Obj.Pkg()) != rel || fi.Decl.Body == nil {
+			continue
+		}
+		info := fi.Pkg.TypesInfo
+		// lists joined with AND
+		joined := map[types.Object]bool{}
+		ast.Inspect(fi.Decl.Body, func(x ast.Node) bool {
+			call, ok := x.(*ast.CallExpr)
+			if !ok || fullName(calleeOf(info, call)) != "strings.Join" || len(call.Args) != 2 {
+				return true
+			}
+			tv := info.Types[call.Args[1]]
+			if tv.Value == nil || tv.Value.Kind() != constant.String || !strings.Contains(strings.ToUpper(constant.StringVal(tv.Value)), "AND") {
+				return true
+			}
+			if id := identOf(call.Args[0]); id != nil {
+				joined[objOf(info, id)] = true
+			}
+			return true
+		})
+		if len(joined) == 0 {
+			continue
+		}
+		for _, as := range appendStmts(info, fi.Decl.Body, "") {
+			id := identOf(as.Lhs[0])
+			if id == nil || !joined[objOf(info, id)] {
+				continue
+			}
+			call := as.Rhs[0].(*ast.CallExpr)
+			for _, a := range call.Args[1:] {
+				text := ""
+				if tv := info.Types[a]; tv.Value != nil && tv.Value.Kind() == constant.String {
+					text = constant.StringVal(tv.Value)
+				} else if sp, ok := ast.Unparen(a).(*ast.CallExpr); ok && fullName(calleeOf(info, sp)) == "fmt.Sprintf" {
+					text, _ = verbArgs(info, sp)
+				} else {
+					continue
+				}
+				n++
+				depth, bare := 0, false
+				up := strings.ToUpper(text)
+				for i := 0; i < len(up); i++ {
+					switch up[i] {
+					case '(':
+						depth++
+					case ')':
+						depth--
+					}
+					if depth == 0 && strings.HasPrefix(up[i:], " OR ") {
+						bare = true
+					}
+				}
+				r.cond(!bare, "TPL-C05p", fi.Name, "AND-joined fragment `"+strings.TrimSpace(text)+"`", w.Pos(a.Pos()),
+					"no OR outside parentheses: joining with AND keeps the grouping",
+					"the fragment has an OR outside parentheses and is joined to the other comparisons with AND, which binds tighter: `a AND (x IS NULL AND $2 IS NULL) OR x = $2` is read as `(a AND …) OR x = $2`, so the statement matches rows that differ on the other keys")
+			}
+		}
+	}
+	return n
 }
